@@ -65,6 +65,9 @@ type e2eInput struct {
 	Items              []e2eItem
 	Chunks             []int
 	SetRecorderDefaults bool // leave min/max/preview to the defaults (10/600/5)
+	// > 0: item BurstAt (a bad frame) and the two items after it are written to the socket in ONE piece, without
+	// waiting for the recorder in between: when it handles the bad frame the following frames are already in its buffer
+	BurstAt int `json:",omitempty"`
 }
 
 type e2eFile struct {
@@ -362,13 +365,19 @@ func (in *e2eInput) fixDisk() {
 	syscall.Statfs(runDir(), &fs)
 	avail := fs.Bavail * uint64(fs.Bsize) / 1024 / 1024
 	free := fs.Bfree * uint64(fs.Bsize) / 1024 / 1024
+	// margins are generous (other processes fill and free the same file system while a session runs):
+	// what is tested is WHICH figure is compared, not the last megabyte
+	slack := avail / 32
+	if slack < 2048 {
+		slack = 2048
+	}
 	switch {
-	case in.DiskMode == 1 && avail > 200:
-		in.MinDiskMB, in.DiskFull = avail-100, false // enough space, barely
-	case in.DiskMode == 2 && free > avail+200:
+	case in.DiskMode == 1 && avail > 2*slack:
+		in.MinDiskMB, in.DiskFull = avail-slack, false // enough space, with the figure in the right order of magnitude
+	case in.DiskMode == 2 && free > avail+2*slack:
 		in.MinDiskMB, in.DiskFull = avail+(free-avail)/2, true // not enough for us although "free" says so
 	case in.DiskMode == 2:
-		in.MinDiskMB, in.DiskFull = avail+100, true
+		in.MinDiskMB, in.DiskFull = 2*avail+slack, true
 	default:
 		in.DiskMode, in.DiskFull = 0, false
 	}
@@ -425,7 +434,12 @@ func e2eRun(in e2eInput) e2eObs {
 			}
 		}
 		send(append(hdr, '\n'))
+		burstSkip := 0
 		for ri, r := range raws {
+			if burstSkip > 0 { // already sent, in one piece with the bad frame before it
+				burstSkip--
+				continue
+			}
 			if string(r) == "clear" && (ri+in.Serial)%2 == 0 {
 				// the camera's marker arriving in two reads: the first part alone, nothing else buffered
 				k := 1 + (ri+in.Serial/2)%4
@@ -435,6 +449,13 @@ func e2eRun(in e2eInput) e2eObs {
 				time.Sleep(2 * time.Millisecond)
 				conn.Write(r[k:])
 				waitDrained(conn)
+				continue
+			}
+			if in.BurstAt > 0 && ri == in.BurstAt && ri+2 < len(raws) {
+				conn.Write(append(append(append([]byte{}, r...), raws[ri+1]...), raws[ri+2]...))
+				waitDrained(conn)
+				time.Sleep(1500 * time.Microsecond)
+				burstSkip = 2
 				continue
 			}
 			send(r)
@@ -663,6 +684,11 @@ func e2eGen1(rng *rand.Rand, i int) e2eInput {
 			in.Throttle = "transparent"
 		}
 	}
+	if in.Throttle == "impossible" && !in.SetRecorderDefaults && in.MinSecs+in.PreviewSecs < 2 {
+		// "impossible" = a minimum clip (min-secs + preview-secs) larger than the 1 s bucket; min-secs 1 with
+		// preview-secs 0 is exactly one bucket and CAN record
+		in.PreviewSecs = 1
+	}
 	in.LocMode = []int{0, 0, 0, 1, 2, 3}[rng.Intn(6)]
 	m := &in.Motion
 	m.Set = map[string]bool{}
@@ -745,6 +771,17 @@ func e2eGen1(rng *rand.Rand, i int) e2eInput {
 	}
 	if len(in.Chunks) == 1 && in.Chunks[0] < 8 {
 		in.Chunks = append(in.Chunks, 4096)
+	}
+	if i%3 == 1 {
+		// a bad frame in the middle of the stream, sent in one piece with the two items after it: when the recorder
+		// handles the bad frame, they are already in its read buffer - processing must resume with exactly them
+		for k := len(in.Items) / 2; k < len(in.Items); k++ {
+			if !in.Items[k].Clear {
+				in.Items[k].Ov = append([]detOv{{eff.EdgePixels + (in.H-2*eff.EdgePixels)/2, eff.EdgePixels + (in.W-2*eff.EdgePixels)/2, 0}}, in.Items[k].Ov...)
+				in.BurstAt = k
+				break
+			}
+		}
 	}
 	return in
 }
